@@ -30,6 +30,59 @@ PAIRS = [('\u00e9', 'e\u0301'), ('\u00f1', 'n\u0303'), ('\u00fc', 'u\u0308'), ('
          ('\u00e7', 'c\u0327'), ('\u03ac', '\u03b1\u0301'), ('\uac00', '\u1100\u1161'), ('\u1ebf', 'e\u0302\u0301'),
          ('\u0439', '\u0438\u0306'), ('\u1eb9\u0301', 'e\u0301\u0323'), ('\u00f4', 'o\u0302'), ('\u01d6', 'u\u0308\u0304'),
          ('\u1e69', 's\u0323\u0307'), ('\uac01', '\u1100\u1161\u11a8'), ('\u0958', '\u0915\u093c')]
+# combining marks by canonical combining class (unicodedata.combining): two or three per class, all Unicode <= 5.0
+MARKS = {230: ['\u0301', '\u0305', '\u0300', '\u0308'], 220: ['\u0323', '\u0331', '\u0325'], 202: ['\u0321', '\u0322'],
+         216: ['\u031b', '\u0f39'], 1: ['\u0334', '\u0335'], 9: ['\u094d', '\u09cd']}
+STARTERS = ['a', 'e', 'o', 'u', 'A', 'N']
+assert all(unicodedata.combining(m) == c for c, ms in MARKS.items() for m in ms)
+
+
+def mark_names():
+    """starter + 2..3 marks with equal / increasing / decreasing combining classes, in every order; precomposed + extra mark;
+    Hangul L+V+T; and for each sequence the DISTINCT names that a wrong (unblocked) composition would make it collide with"""
+    import itertools
+    classes = list(MARKS)
+    seqs = []
+    k = 0
+    for c1 in classes:
+        for c2 in classes:
+            st = STARTERS[k % len(STARTERS)]; k += 1
+            m1 = MARKS[c1][0]
+            m2 = MARKS[c2][1 if c1 == c2 else 0]
+            seqs.append(st + m1 + m2)
+    for tri in itertools.permutations([230, 220, 202, 216, 1, 9], 3):
+        st = STARTERS[k % len(STARTERS)]; k += 1
+        seqs.append(st + ''.join(MARKS[c][0] for c in tri))
+    for c in (230, 220):
+        for tri in itertools.permutations(MARKS[c][:3], 3):
+            st = STARTERS[k % len(STARTERS)]; k += 1
+            seqs.append(st + ''.join(tri))
+        for a, b in itertools.permutations(MARKS[c][:3], 2):
+            for st in ('a', 'o', 'u', 'N'):
+                seqs.append(st + a + b)                                   # same class: the second mark is BLOCKED from the starter
+                seqs.append(st + a + MARKS[220 if c == 230 else 230][0] + b)
+    for pre in ('\u00e1', '\u00f4', '\u1ea1', '\u00d1', '\u01d8', '\u1ed9'):
+        for c in classes:
+            seqs.append(pre + MARKS[c][0]); seqs.append(pre + MARKS[c][-1] + MARKS[230][1])
+    seqs += ['\u1100\u1161\u11a8', '\uac00\u11a8', '\u1100\u1161', '\u1100\u1161\u11a8\u11a8', '\uac01\u11a8', '\u1100\u0301\u1161',
+             '\u1112\u1175\u11c2', '\ud788\u11c2', '\u1100\u1161\u0323\u11a8']
+    out = []
+    for q in seqs:
+        sib = []
+        ch = list(q)
+        # what an unblocked composition of a LATER mark with the starter would give: compose starter+mark_j, keep the rest in place
+        for j in range(2, len(ch)):
+            comp = unicodedata.normalize('NFC', ch[0] + ch[j])
+            if len(comp) == 1:
+                w = comp + ''.join(ch[1:j] + ch[j + 1:])
+                if unicodedata.normalize('NFC', w) != unicodedata.normalize('NFC', q):
+                    sib.append(w)
+        out.append((q, sib))
+    return out
+
+
+MARKNAMES = mark_names()
+
 ILLEGAL = [b'-abc', b' abc', b'a/b', b'ab ', b'a\x01b', b'\x7fabc', b'ab\x7f', b'a\x80b', b'ab\xc3', b'\xffab', b'a\xc0\x80',
            b'.x', b'a\xed\xa0\x80', b'/']
 ASCII1 = 'ABCDEFGHIJKLMNOPQRSTUVWXYZabcdefghijklmnopqrstuvwxyz_0123456789'
@@ -151,7 +204,7 @@ class Gen:
     def fresh_name(self, existing, size, kind=None):
         """a name for a new object; `existing` = normalised names in the same table, `size` = its hash size"""
         r = self.rng
-        kind = kind or r.choice(['ascii'] * 5 + ['collide'] * 4 + ['utf8'] * 3 + ['long'] * 1 + ['short'] * 1)
+        kind = kind or r.choice(['ascii'] * 5 + ['collide'] * 4 + ['utf8'] * 3 + ['marks'] * 3 + ['long'] * 1 + ['short'] * 1)
         self.count('name:' + kind)
         for _ in range(200):
             if kind == 'collide' and existing and size > 1:
@@ -163,6 +216,15 @@ class Gen:
             elif kind == 'utf8':
                 p = r.choice(PAIRS)
                 c = (self.ascii_name(1, 3).decode() + r.choice(p) + (self.ascii_name(1, 2).decode() if r.chance(1, 2) else '')).encode()
+            elif kind == 'marks':
+                q, sib = r.choice(MARKNAMES)
+                if getattr(self, 'sibling', None) and r.chance(1, 2):
+                    core, self.sibling = self.sibling, None      # the distinct name a wrong composition of the previous one would collide with
+                    self.count('name:marks-sibling')
+                else:
+                    core = q if not r.chance(1, 4) else unicodedata.normalize(r.choice(['NFD', 'NFC']), q)
+                    self.sibling = r.choice(sib) if sib else None
+                c = ((self.ascii_name(1, 2).decode() if r.chance(1, 2) else '') + core + (self.ascii_name(1, 2).decode() if r.chance(1, 3) else '')).encode()
             elif kind == 'long':
                 n = r.choice([NC_MAX_NAME, NC_MAX_NAME, NC_MAX_NAME - 1, 200, 255])
                 c = self.ascii_name(n, n)
@@ -408,6 +470,54 @@ class Gen:
         if not sl.indef and sl.ever_enddef:
             self.send('DISK %d' % s, 'disk')
         return True
+
+    def directed_marks(self, part, nparts):
+        """directed history: every constructed mark sequence and its would-be-colliding DISTINCT sibling as dimension, variable,
+        global-attribute and variable-attribute name (def / put_att / rename / inq by another spelling)"""
+        r = self.rng
+        self.fmts = [5, 5]
+        self.force_sizes = [r.choice([1, 2, 8, 256]) for _ in range(4)]
+        self.do_create(0)
+        self.force_sizes = None
+        self.send('DEFDIM 0 %s 2' % tok(b'd0'), 'mut')
+        self.send('DEFVAR 0 %s 4 1 0' % tok(b'v0'), 'mut')
+        items = MARKNAMES[part::nparts]
+        for i, (q, sib) in enumerate(items):
+            names = [q] + sib
+            how = i % 4
+            for nm in names:
+                raw = nm.encode('utf-8')
+                if how == 0:
+                    self.send('DEFDIM 0 %s 1' % tok(raw), 'mut')
+                    self.send('INQDIMID 0 %s' % tok(unicodedata.normalize('NFD', nm).encode('utf-8')), 'inq')
+                elif how == 1:
+                    self.send('DEFVAR 0 %s 4 0' % tok(raw), 'mut')
+                    self.send('INQVARID 0 %s' % tok(unicodedata.normalize('NFD', nm).encode('utf-8')), 'inq')
+                elif how == 2:
+                    self.send('PUTATT 0 -1 %s T 2 1 %d' % (tok(raw), 48 + i % 60), 'mut')
+                    self.send('INQATTID 0 -1 %s' % tok(unicodedata.normalize('NFD', nm).encode('utf-8')), 'inq')
+                else:
+                    tmp = ('t%d' % i).encode()
+                    self.send('PUTATT 0 0 %s L 4 1 %d' % (tok(tmp), i), 'mut')
+                    self.send('RENATT 0 0 %s %s' % (tok(tmp), tok(raw)), 'mut')
+                    self.send('GETATT 0 0 %s L' % tok(unicodedata.normalize('NFD', nm).encode('utf-8')), 'inq')
+            self.count('marks:sequence')
+            if sib:
+                self.count('marks:with-colliding-sibling')
+            if i % 8 == 7:
+                self.refresh(0)
+        self.refresh(0)
+        # rename a dimension and a variable to such names too
+        q, sib = items[0]
+        self.send('RENDIM 0 0 %s' % tok(('r' + q).encode('utf-8')), 'mut')
+        self.send('RENVAR 0 0 %s' % tok(('r' + q).encode('utf-8')), 'mut')
+        self.refresh(0)
+        if self.model(self.send('ENDDEF 0', 'mode')) == '0':
+            self.slots[0].indef, self.slots[0].ever_enddef = False, True
+            self.send('DISK 0', 'disk')
+        self.do_close(0)
+        self.do_open(0, False)
+        self.do_close(0)
 
     def directed_unsorted(self, sizes, fmt):
         """directed history: one file with the given table sizes [dim, var, gattr, vattr]; the rename-then-delete sequence on the
@@ -772,6 +882,16 @@ def run_check(tier, seed):
             scripts.append(('unsorted-bucket-%d' % di, g.lines, g.answers, g.tags))
             for k, v in g.dist.items():
                 dist[k] = dist.get(k, 0) + v
+        nparts = 6 if tier == 'quick' else 1
+        p = subprocess.Popen([drv], stdin=subprocess.PIPE, stdout=subprocess.PIPE, text=True, bufsize=1)
+        g = Gen(rng, p, 0)
+        g.send(cfg, 'mode')
+        g.directed_marks(seed % nparts, nparts)        # quick: one sixth of the constructed mark sequences (chosen by the seed), thorough: all
+        p.stdin.close()
+        p.wait()
+        scripts.append(('nfc-marks', g.lines, g.answers, g.tags))
+        for k, v in g.dist.items():
+            dist[k] = dist.get(k, 0) + v
         for ep in range(nep):
             p = subprocess.Popen([drv], stdin=subprocess.PIPE, stdout=subprocess.PIPE, text=True, bufsize=1)
             g = Gen(rng, p, nops)
